@@ -365,6 +365,40 @@ func fixTimes(f *ach.File) {
 	}
 }
 
+// sharedOpts is one ValidateOpts value handed to the library for every input, by every goroutine, the way a
+// caller that configures validation once does; the library must only read it (sharedOptsPristine is its copy).
+var sharedOptsPristine = ach.ValidateOpts{AllowInvalidAmounts: true}
+var sharedOpts = func() *ach.ValidateOpts { c := sharedOptsPristine; return &c }()
+
+// sharedOptsState: "" while the shared options still equal the pristine copy
+func sharedOptsState() string {
+	a, b := *sharedOpts, sharedOptsPristine
+	fa, fb := a.CheckTransactionCode != nil, b.CheckTransactionCode != nil
+	a.CheckTransactionCode, b.CheckTransactionCode = nil, nil
+	sa, sb := fmt.Sprintf("%+v", a), fmt.Sprintf("%+v", b)
+	if sa != sb || fa != fb {
+		return sa
+	}
+	return ""
+}
+
+// withOwnOpts gives a JSON file document a validateOpts member of its own (every other input by content)
+func withOwnOpts(js []byte) []byte {
+	if len(js)%2 == 0 {
+		return js
+	}
+	var m map[string]json.RawMessage
+	if json.Unmarshal(js, &m) != nil {
+		return js
+	}
+	m["validateOpts"] = json.RawMessage(`{"bypassOriginValidation":true,"customTraceNumbers":true}`)
+	out, err := json.Marshal(m)
+	if err != nil {
+		return js
+	}
+	return out
+}
+
 // process performs every library operation of the property on one input and returns the
 // outputs as text sections (IDs drawn from the random source are blanked).
 func process(in input) []section {
@@ -436,6 +470,47 @@ func process(in input) []section {
 		return b.String() + "|err=" + errText(err)
 	})
 	guard("records", &secs, func() string { return canon(strings.Join(recordStrings(f), "\n")) })
+	// the same input under the options value every goroutine shares: decoded (a document with options of its own
+	// every other time), validated, consolidated, split and merged with a copy read under the shared options too
+	guard("shared-opts", &secs, func() string {
+		var g, h *ach.File
+		var err error
+		if in.isJSON() || js != nil {
+			src := js
+			if in.isJSON() {
+				src = in.data
+			}
+			g, err = ach.FileFromJSONWith(withOwnOpts(src), sharedOpts)
+			h, _ = ach.FileFromJSONWith(src, sharedOpts)
+		}
+		if g == nil {
+			return "nil|err=" + errText(err)
+		}
+		var b strings.Builder
+		b.WriteString(writeFile(g) + "|err=" + errText(err) + "|validate=" + errText(g.ValidateWith(sharedOpts)))
+		if fl, ferr := g.FlattenBatches(); fl != nil {
+			b.WriteString("|flatten=" + writeFile(fl))
+		} else {
+			b.WriteString("|flatten-err=" + errText(ferr))
+		}
+		c, d, serr := g.SegmentFile(nil)
+		fixTimes(c)
+		fixTimes(d)
+		for _, x := range []*ach.File{c, d} {
+			if x != nil {
+				b.WriteString("|seg=" + writeFile(x))
+			}
+		}
+		b.WriteString("|seg-err=" + errText(serr))
+		if h != nil {
+			outs, merr := ach.MergeFiles([]*ach.File{g, h})
+			for _, x := range outs {
+				b.WriteString("|merged=" + writeFile(x))
+			}
+			b.WriteString("|merge-err=" + errText(merr))
+		}
+		return b.String()
+	})
 	return secs
 }
 
@@ -792,6 +867,12 @@ func (rn *runner) concurrentLib(ins []input, g, reps int, cold bool) bool {
 		}
 	}
 	ok := true
+	if st := sharedOptsState(); st != "" {
+		ok = false
+		rn.fail("lib:shared-options-modified", "the ValidateOpts value the caller shares between all files was written to by the library: it now reads "+st,
+			failCase{Mode: "lib", Inputs: append([]input(nil), ins...), Goroutines: g, Reps: reps, Victim: ins[0], Op: "shared-opts", Sequential: fmt.Sprintf("%+v", sharedOptsPristine), Concurrent: st})
+		*sharedOpts = sharedOptsPristine
+	}
 	for w := range results {
 		for _, r := range results[w] {
 			if digest(r.secs) == digest(refs[r.idx]) {
